@@ -12,7 +12,7 @@ import z3
 
 from .values import (ExternalFn, ModuleRef, Opaque, PyRaise, Sym, SymC, SymSeq, TypeRef, Unsupported, as_complex,
                      concrete, is_scalar, kind_of, mk, norm_number, seq_of, to_int_z, to_real_z, v_abs, v_add, v_and,
-                     v_cmp, v_ite, v_mul, v_neg, v_not, v_or, v_sub, v_truediv, v_truth, z_of)
+                     v_cmp, v_floordiv, v_ite, v_mul, v_neg, v_not, v_or, v_sub, v_truediv, v_truth, z_of)
 
 
 class PRow:
@@ -1335,6 +1335,40 @@ def np_linspace(I, args, kw):
     if isinstance(length, int) and length <= 64:
         return Arr([v_add(start, v_mul(i, step)) for i in range(length)]) if False else tuple(v_add(start, v_mul(i, step)) for i in range(length))
     return SymSeq(length, lambda i: v_add(start, v_mul(to_float(I, i), step)), "linspace")
+
+
+def _roll_model(I, x, shift_of_n, what):
+    """ASSUMED contract of numpy.fft.fftshift / ifftshift on a 1-D array of n points: a cyclic roll by n // 2 resp. -(n // 2),
+    written without `mod`: result[j] = x[j + s] if j + s < n else x[j + s - n] with s = n - n // 2 resp. n // 2."""
+    I.ctx.trusted.add(f"ASSUMED contract: {what} is the cyclic roll of a 1-D array by n // 2 (fftshift) / -(n // 2) (ifftshift)")
+    if isinstance(x, (tuple, list)):
+        n = len(x)
+        s = shift_of_n(n)
+        return tuple(x[(j + s) % n] for j in range(n)) if n else tuple()
+    if not isinstance(x, SymSeq):
+        raise Unsupported(what + " of a non-sequence outside pointwise mode")
+    n = x.length
+    s = shift_of_n(n)
+
+    def getter(j, _x=x, _n=n, _s=s):
+        k = v_add(j, _s)
+        return v_ite(v_cmp("Lt", k, _n), _x.get(k), _x.get(v_sub(k, _n)))
+
+    return SymSeq(n, getter, what)
+
+
+@_ext("numpy.fft.ifftshift")
+def np_ifftshift(I, args, kw):
+    if I.options.get("pointwise"):
+        raise Unsupported("ifftshift in pointwise mode")
+    return _roll_model(I, args[0], lambda n: v_floordiv(n, 2), "numpy.fft.ifftshift")
+
+
+@_ext("numpy.fft.fftshift")
+def np_fftshift(I, args, kw):
+    if I.options.get("pointwise"):
+        raise Unsupported("fftshift in pointwise mode")
+    return _roll_model(I, args[0], lambda n: v_sub(n, v_floordiv(n, 2)), "numpy.fft.fftshift")
 
 
 @_ext("abtem.core.backend.get_ndimage_module")
